@@ -2313,6 +2313,11 @@ func (t *Terminal) updatePromptOffset() ([]rune, []rune) {
 	}
 	maxWidth := util.Max(1, w.Width()-t.promptLen-1)
 
+	// No need to scroll if the whole query fits
+	if t.displayWidth(t.input) <= maxWidth {
+		t.xoffset = 0
+	}
+
 	_, overflow := t.trimLeft(t.input[:t.cx], maxWidth)
 	minOffset := int(overflow)
 	maxOffset := minOffset + (maxWidth-util.Max(0, maxWidth-t.cx))/2
